@@ -1,12 +1,17 @@
 ----------------------------- MODULE WindowConc -----------------------------
 (***************************************************************************)
 (* The lock-free sliding window (core/stat/base: currentBucketOfTime,      *)
-(* ResetBucketTo, MetricBucket.addCount/Get, valuesWithTime) at the grain  *)
-(* of its atomic accesses (property C09).  Labels are the yield points of  *)
-(* the real code: la.load  la.trylock  la.setstart  la.reset  la.unlock    *)
-(* mb.add  la.scan  mb.get  (+ "start": the goroutine has not begun).      *)
-(* Writers record Amt[w] at the clock value of their invocation; readers   *)
-(* perform a whole-array count (refresh current bucket, scan, sum).        *)
+(* ResetBucketTo, MetricBucket.addCount/AddRt/UpdateConcurrency/Get/reset, *)
+(* valuesWithTime, MinRt/MaxConcurrency) at the grain of its atomic        *)
+(* accesses (property C09).  Labels are the yield points of the real code: *)
+(* la.load  la.trylock  la.setstart  la.reset  la.unlock  mb.add  la.scan  *)
+(* mb.get  (+ "start": the goroutine has not begun).                       *)
+(* A bucket holds one counter per event kind of CKinds plus a minimum (fed *)
+(* by the "rt" recorders, AddRt) and a maximum (fed by the "conc"          *)
+(* recorders, UpdateConcurrency); a roll-over clears ALL of them.          *)
+(* Writer w records Amt[w] into the statistic WKind[w] at the clock value  *)
+(* of its invocation; reader r performs a whole-array read of RKind[r]     *)
+(* (refresh current bucket, scan, sum / minimum / maximum).                *)
 (* The clock may not advance while that would leave a pending recorder     *)
 (* stalled for more than one bucket length (assumption of the property).   *)
 (***************************************************************************)
@@ -18,20 +23,33 @@ CONSTANTS N, BL,          \* slots, bucket length
           T0, MaxT,
           ResetFirst,     \* TRUE: counters are zeroed BEFORE the new start is published (the code after
                           \* "fix: reset the bucket before publishing its new start"); FALSE: pinned order
-          Recheck         \* TRUE: the decision to roll the bucket over is re-checked under the update lock (the code
+          Recheck,        \* TRUE: the decision to roll the bucket over is re-checked under the update lock (the code
                           \* after "fix: re-check the bucket start under the update lock"); FALSE: pinned code, which
                           \* resets again a bucket that another goroutine has refreshed (and written to) meanwhile
+          CKinds,         \* the counters of a bucket carried by this model (event kinds: "pass" "block" "complete" "error" "rt")
+          WKind,          \* writer -> the statistic it records into: a counter of CKinds (AddCount; "rt" also lowers the
+                          \* bucket's minimum, AddRt) or "conc" (UpdateConcurrency: raises the bucket's maximum, no mb.add point)
+          RKind,          \* reader -> the statistic it reads: a counter of CKinds (Count), "minrt" (MinRt) or "maxconc" (MaxConcurrency)
+          MaxRt,          \* neutral value of the minimum (DefaultStatisticMaxRt)
+          IdleKinds       \* {} : the real code, a roll-over always clears the bucket.  Non-empty (spec-level mutant): the
+                          \* roll-over skips the reset of a bucket whose counters of these kinds are all zero ("nothing arrived")
 
 Idx(t) == (t \div BL) % N
 P == N * BL
 InitStart(i) == Align(T0, BL) + ((i - Idx(T0) + N) % N) * BL
 \* isBucketDeprecated with unsigned wrap-around (after "fix: a bucket exactly one interval old is deprecated")
 Deprecated(t, ws) == IF ws > t THEN TRUE ELSE t - ws >= P
+Zero == [k \in CKinds |-> 0]
+Min2(a, b) == IF a < b THEN a ELSE b
+Max2(a, b) == IF a > b THEN a ELSE b
+SkipReset(c) == IdleKinds # {} /\ \A k \in IdleKinds : c[k] = 0
 
 (* --algorithm WindowConc {
 variables
     start = [sl \in 0..(N-1) |-> InitStart(sl)],
-    cnt   = [sl \in 0..(N-1) |-> 0],
+    cnt   = [sl \in 0..(N-1) |-> Zero],        \* counters per slot and event kind
+    mn    = [sl \in 0..(N-1) |-> MaxRt],       \* minRt per slot
+    mx    = [sl \in 0..(N-1) |-> 0],           \* maxConcurrency per slot
     lock  = 0,
     now   = T0,
     seq   = 0,                 \* position in the total order of invocations / returns
@@ -42,18 +60,30 @@ variables
 define {
     Pending == { pend[p] : p \in { q \in Writers \cup Readers : pend[q].kind # "none" } }
     AllOps  == ops \cup Pending
-    NoInventionInv == NoInvention(AllOps, N, BL)
-    ExactInv       == ExactWhenNoOverlap(AllOps, N, BL)
+    NoInventionInv == NoInvention(AllOps, N, BL, MaxRt)
+    ExactInv       == ExactWhenNoOverlap(AllOps, N, BL, MaxRt)
     AllDone        == \A p \in Writers \cup Readers : pc[p] = "Done"
-    \* what a quiescent whole-array read at the current instant would return (it refreshes the current slot first)
-    SlotVal(j)     == IF j = Idx(now) /\ start[j] < Align(now, BL) THEN 0
-                      ELSE IF Deprecated(now, start[j]) THEN 0 ELSE cnt[j]
-    RECURSIVE SumSlots(_)
-    SumSlots(S)    == IF S = {} THEN 0 ELSE LET j == CHOOSE x \in S : TRUE IN SlotVal(j) + SumSlots(S \ {j})
+    \* the minimum / maximum a read reports over the slots S it selected
+    ExtRead(k, S)  == IF k = "minrt"
+                      THEN IF S = {} THEN MaxRt ELSE CHOOSE v \in { mn[j] : j \in S } : \A j \in S : v <= mn[j]
+                      ELSE IF S = {} THEN 0 ELSE CHOOSE v \in { mx[j] : j \in S } : \A j \in S : v >= mx[j]
+    \* what a quiescent whole-array read at the current instant would select (it refreshes the current slot first)
+    SlotIn(j)      == ~(j = Idx(now) /\ start[j] < Align(now, BL)) /\ ~Deprecated(now, start[j])
+    LiveSlots      == { j \in 0..(N-1) : SlotIn(j) }
+    RECURSIVE SumSlots(_, _)
+    SumSlots(S, k) == IF S = {} THEN 0 ELSE LET j == CHOOSE x \in S : TRUE IN cnt[j][k] + SumSlots(S \ {j}, k)
+    WinAdds(k)     == { a \in Adds(ops) : a.ev = k /\ Align(a.ts, BL) >= Lo(now, N, BL) /\ Align(a.ts, BL) <= Align(now, BL) }
     \* nothing inside the window is lost: once everybody has returned and no recorder overlapped a foreign
-    \* roll-over of its own slot, the array holds exactly the recorded totals of the current window
+    \* roll-over of its own slot, the array holds exactly the recorded totals of the current window - of every statistic
     FinalExact     == (AllDone /\ Clean(ops)) =>
-                        SumSlots(0..(N-1)) = SumN({ a \in Adds(ops) : Align(a.ts, BL) >= Lo(now, N, BL) /\ Align(a.ts, BL) <= Align(now, BL) })
+                        /\ \A k \in CKinds : SumSlots(LiveSlots, k) = SumN(WinAdds(k))
+                        /\ ExtRead("minrt", LiveSlots) = Ext([ev |-> "minrt"], WinAdds("rt"), MaxRt)
+                        /\ ExtRead("maxconc", LiveSlots) = Ext([ev |-> "maxconc"], WinAdds("conc"), MaxRt)
+    \* sanity of the configuration and of the bucket contents
+    TypeOK         == /\ \A j \in 0..(N-1) : mn[j] <= MaxRt /\ mx[j] >= 0 /\ \A k \in CKinds : cnt[j][k] >= 0
+                      /\ \A p \in Writers : WKind[p] \in CKinds \cup {"conc"}
+                      /\ \A p \in Readers : RKind[p] \in CKinds \cup ExtKinds
+                      /\ IdleKinds \subseteq CKinds
 }
 
 macro Note() { sched := Append(sched, self); }
@@ -68,19 +98,33 @@ macro MarkOver(i) {
                IF p # self /\ ((pend[p].kind = "add" /\ Idx(pend[p].ts) = i) \/ pend[p].kind = "read")
                THEN [pend[p] EXCEPT !.over = TRUE] ELSE pend[p]];
 }
+\* MetricBucket.reset: every counter, the minimum and the maximum (plain stores, no yield point in between)
+macro ResetBucket(i) {
+    if (~SkipReset(cnt[i])) { cnt[i] := Zero; mn[i] := MaxRt; mx[i] := 0; };
+}
+\* MetricBucket.Add / AddRt / UpdateConcurrency on the selected slot
+macro Credit() {
+    if (WKind[self] = "conc") { mx[idx] := Max2(mx[idx], Amt[self]); }
+    else {
+        cnt[idx][WKind[self]] := cnt[idx][WKind[self]] + Amt[self];
+        if (WKind[self] = "rt") { mn[idx] := Min2(mn[idx], Amt[self]); };
+    };
+}
 
 process (w \in Writers)
 variables ts = 0, bs = 0, idx = 0;
 {
-  w_inv:    \* start: AddCount is invoked, reads the clock
+  w_inv:    \* start: AddCount / UpdateConcurrency is invoked, reads the clock
     ts := now; bs := Align(now, BL); idx := Idx(now); seq := seq + 1;
-    pend[self] := [kind |-> "add", ts |-> now, n |-> Amt[self], inv |-> seq + 1, ret |-> 0, retNow |-> 0, val |-> 0, over |-> FALSE];
+    pend[self] := [kind |-> "add", ev |-> WKind[self], ts |-> now, n |-> Amt[self], inv |-> seq + 1, ret |-> 0, retNow |-> 0, val |-> 0, over |-> FALSE];
     Note();
   w_load:   \* la.load
     Note();
-    if (start[idx] = bs) { goto w_add; }
+    if (start[idx] = bs \/ (bs < start[idx] /\ N = 1)) {
+        \* UpdateConcurrency has no yield point of its own: it completes in the step that leaves currentBucketOfTime
+        if (WKind[self] = "conc") { Credit(); Return(0); goto Done; } else { goto w_add; };
+    }
     else if (bs > start[idx]) { goto w_try; }
-    else if (N = 1) { goto w_add; }
     else { Return(0); goto Done; };            \* "time is behind the bucket": the amount is dropped
   w_try:    \* la.trylock
     Note();
@@ -89,30 +133,35 @@ variables ts = 0, bs = 0, idx = 0;
     else { lock := self; };
   w_r1:     \* la.setstart (pinned order) / la.reset (fixed order)
     Note();
-    if (ResetFirst) { cnt[idx] := 0; } else { start[idx] := bs; };
+    if (ResetFirst) { ResetBucket(idx); } else { start[idx] := bs; };
     MarkOver(idx);
   w_r2:     \* la.reset (pinned order) / la.setstart (fixed order)
     Note();
-    if (ResetFirst) { start[idx] := bs; } else { cnt[idx] := 0; };
+    if (ResetFirst) { start[idx] := bs; } else { ResetBucket(idx); };
     MarkOver(idx);
   w_unlock: \* la.unlock
     lock := 0; Note();
+    if (WKind[self] = "conc") { Credit(); Return(0); goto Done; };
   w_add:    \* mb.add
-    cnt[idx] := cnt[idx] + Amt[self]; Note();
+    Credit(); Note();
     Return(0);                                 \* the call returns in the same step (no further yield point)
 }
 
 process (r \in Readers)
 variables rts = 0, rbs = 0, ridx = 0, si = 0, incl = {}, sum = 0;
 {
-  r_inv:    \* start: CountWithTime(now) is invoked
+  r_inv:    \* start: CountWithTime(now) / MinRt() / MaxConcurrency() is invoked
     rts := now; rbs := Align(now, BL); ridx := Idx(now); seq := seq + 1;
-    pend[self] := [kind |-> "read", ts |-> now, n |-> 0, inv |-> seq + 1, ret |-> 0, retNow |-> 0, val |-> 0, over |-> FALSE];
+    pend[self] := [kind |-> "read", ev |-> RKind[self], ts |-> now, n |-> 0, inv |-> seq + 1, ret |-> 0, retNow |-> 0, val |-> 0, over |-> FALSE];
     Note();
   \* refresh the current bucket: same path as a writer, without the add
   r_load:   \* la.load
     Note();
-    if (start[ridx] = rbs \/ (rbs < start[ridx])) { goto r_scan; }
+    if (start[ridx] = rbs \/ (rbs < start[ridx])) {
+        \* MinRt / MaxConcurrency take the clock a second time for the scan (LeapArray.Values())
+        if (RKind[self] \in ExtKinds) { rts := now; };
+        goto r_scan;
+    }
     else { goto r_try; };
   r_try:    \* la.trylock
     Note();
@@ -121,23 +170,26 @@ variables rts = 0, rbs = 0, ridx = 0, si = 0, incl = {}, sum = 0;
     else { lock := self; };
   r_r1:
     Note();
-    if (ResetFirst) { cnt[ridx] := 0; } else { start[ridx] := rbs; };
+    if (ResetFirst) { ResetBucket(ridx); } else { start[ridx] := rbs; };
     MarkOver(ridx);
   r_r2:
     Note();
-    if (ResetFirst) { start[ridx] := rbs; } else { cnt[ridx] := 0; };
+    if (ResetFirst) { start[ridx] := rbs; } else { ResetBucket(ridx); };
     MarkOver(ridx);
   r_unlock: \* la.unlock
     lock := 0; Note();
+    if (RKind[self] \in ExtKinds) { rts := now; };
   r_scan:   \* la.scan, once per slot
     Note();
     if (~Deprecated(rts, start[si])) { incl := incl \cup {si}; };
     si := si + 1;
     if (si < N) { goto r_scan; }
+    \* the minimum / maximum of the selected slots is taken without a further yield point
+    else if (RKind[self] \in ExtKinds) { Return(ExtRead(RKind[self], incl)); goto Done; }
     else if (incl = {}) { Return(0); goto Done; };
   r_get:    \* mb.get, once per selected slot (ascending slot order)
     Note();
-    with (j = CHOOSE x \in incl : \A y \in incl : x <= y) { sum := sum + cnt[j]; incl := incl \ {j}; };
+    with (j = CHOOSE x \in incl : \A y \in incl : x <= y) { sum := sum + cnt[j][RKind[self]]; incl := incl \ {j}; };
     if (incl # {}) { goto r_get; } else { Return(sum); };
 }
 
@@ -150,35 +202,49 @@ process (clock = 0)
   }
 }
 } *)
-\* BEGIN TRANSLATION (chksum(pcal) = "c75171c5" /\ chksum(tla) = "ee0cb3c9")
-VARIABLES pc, start, cnt, lock, now, seq, ops, pend, sched
+\* BEGIN TRANSLATION
+VARIABLES pc, start, cnt, mn, mx, lock, now, seq, ops, pend, sched
 
 (* define statement *)
 Pending == { pend[p] : p \in { q \in Writers \cup Readers : pend[q].kind # "none" } }
 AllOps  == ops \cup Pending
-NoInventionInv == NoInvention(AllOps, N, BL)
-ExactInv       == ExactWhenNoOverlap(AllOps, N, BL)
+NoInventionInv == NoInvention(AllOps, N, BL, MaxRt)
+ExactInv       == ExactWhenNoOverlap(AllOps, N, BL, MaxRt)
 AllDone        == \A p \in Writers \cup Readers : pc[p] = "Done"
 
-SlotVal(j)     == IF j = Idx(now) /\ start[j] < Align(now, BL) THEN 0
-                  ELSE IF Deprecated(now, start[j]) THEN 0 ELSE cnt[j]
-RECURSIVE SumSlots(_)
-SumSlots(S)    == IF S = {} THEN 0 ELSE LET j == CHOOSE x \in S : TRUE IN SlotVal(j) + SumSlots(S \ {j})
+ExtRead(k, S)  == IF k = "minrt"
+                  THEN IF S = {} THEN MaxRt ELSE CHOOSE v \in { mn[j] : j \in S } : \A j \in S : v <= mn[j]
+                  ELSE IF S = {} THEN 0 ELSE CHOOSE v \in { mx[j] : j \in S } : \A j \in S : v >= mx[j]
+
+SlotIn(j)      == ~(j = Idx(now) /\ start[j] < Align(now, BL)) /\ ~Deprecated(now, start[j])
+LiveSlots      == { j \in 0..(N-1) : SlotIn(j) }
+RECURSIVE SumSlots(_, _)
+SumSlots(S, k) == IF S = {} THEN 0 ELSE LET j == CHOOSE x \in S : TRUE IN cnt[j][k] + SumSlots(S \ {j}, k)
+WinAdds(k)     == { a \in Adds(ops) : a.ev = k /\ Align(a.ts, BL) >= Lo(now, N, BL) /\ Align(a.ts, BL) <= Align(now, BL) }
 
 
 FinalExact     == (AllDone /\ Clean(ops)) =>
-                    SumSlots(0..(N-1)) = SumN({ a \in Adds(ops) : Align(a.ts, BL) >= Lo(now, N, BL) /\ Align(a.ts, BL) <= Align(now, BL) })
+                    /\ \A k \in CKinds : SumSlots(LiveSlots, k) = SumN(WinAdds(k))
+                    /\ ExtRead("minrt", LiveSlots) = Ext([ev |-> "minrt"], WinAdds("rt"), MaxRt)
+                    /\ ExtRead("maxconc", LiveSlots) = Ext([ev |-> "maxconc"], WinAdds("conc"), MaxRt)
+
+TypeOK         == /\ \A j \in 0..(N-1) : mn[j] <= MaxRt /\ mx[j] >= 0 /\ \A k \in CKinds : cnt[j][k] >= 0
+                  /\ \A p \in Writers : WKind[p] \in CKinds \cup {"conc"}
+                  /\ \A p \in Readers : RKind[p] \in CKinds \cup ExtKinds
+                  /\ IdleKinds \subseteq CKinds
 
 VARIABLES ts, bs, idx, rts, rbs, ridx, si, incl, sum
 
-vars == << pc, start, cnt, lock, now, seq, ops, pend, sched, ts, bs, idx, rts, 
-           rbs, ridx, si, incl, sum >>
+vars == << pc, start, cnt, mn, mx, lock, now, seq, ops, pend, sched, ts, bs, 
+           idx, rts, rbs, ridx, si, incl, sum >>
 
 ProcSet == (Writers) \cup (Readers) \cup {0}
 
 Init == (* Global variables *)
         /\ start = [sl \in 0..(N-1) |-> InitStart(sl)]
-        /\ cnt = [sl \in 0..(N-1) |-> 0]
+        /\ cnt = [sl \in 0..(N-1) |-> Zero]
+        /\ mn = [sl \in 0..(N-1) |-> MaxRt]
+        /\ mx = [sl \in 0..(N-1) |-> 0]
         /\ lock = 0
         /\ now = T0
         /\ seq = 0
@@ -205,30 +271,42 @@ w_inv(self) == /\ pc[self] = "w_inv"
                /\ bs' = [bs EXCEPT ![self] = Align(now, BL)]
                /\ idx' = [idx EXCEPT ![self] = Idx(now)]
                /\ seq' = seq + 1
-               /\ pend' = [pend EXCEPT ![self] = [kind |-> "add", ts |-> now, n |-> Amt[self], inv |-> seq' + 1, ret |-> 0, retNow |-> 0, val |-> 0, over |-> FALSE]]
+               /\ pend' = [pend EXCEPT ![self] = [kind |-> "add", ev |-> WKind[self], ts |-> now, n |-> Amt[self], inv |-> seq' + 1, ret |-> 0, retNow |-> 0, val |-> 0, over |-> FALSE]]
                /\ sched' = Append(sched, self)
                /\ pc' = [pc EXCEPT ![self] = "w_load"]
-               /\ UNCHANGED << start, cnt, lock, now, ops, rts, rbs, ridx, si, 
-                               incl, sum >>
+               /\ UNCHANGED << start, cnt, mn, mx, lock, now, ops, rts, rbs, 
+                               ridx, si, incl, sum >>
 
 w_load(self) == /\ pc[self] = "w_load"
                 /\ sched' = Append(sched, self)
-                /\ IF start[idx[self]] = bs[self]
-                      THEN /\ pc' = [pc EXCEPT ![self] = "w_add"]
-                           /\ UNCHANGED << seq, ops, pend >>
+                /\ IF start[idx[self]] = bs[self] \/ (bs[self] < start[idx[self]] /\ N = 1)
+                      THEN /\ IF WKind[self] = "conc"
+                                 THEN /\ IF WKind[self] = "conc"
+                                            THEN /\ mx' = [mx EXCEPT ![idx[self]] = Max2(mx[idx[self]], Amt[self])]
+                                                 /\ UNCHANGED << cnt, mn >>
+                                            ELSE /\ cnt' = [cnt EXCEPT ![idx[self]][WKind[self]] = cnt[idx[self]][WKind[self]] + Amt[self]]
+                                                 /\ IF WKind[self] = "rt"
+                                                       THEN /\ mn' = [mn EXCEPT ![idx[self]] = Min2(mn[idx[self]], Amt[self])]
+                                                       ELSE /\ TRUE
+                                                            /\ mn' = mn
+                                                 /\ mx' = mx
+                                      /\ seq' = seq + 1
+                                      /\ ops' = (ops \cup {[pend[self] EXCEPT !.ret = seq' + 1, !.retNow = now, !.val = 0]})
+                                      /\ pend' = [pend EXCEPT ![self] = [kind |-> "none"]]
+                                      /\ pc' = [pc EXCEPT ![self] = "Done"]
+                                 ELSE /\ pc' = [pc EXCEPT ![self] = "w_add"]
+                                      /\ UNCHANGED << cnt, mn, mx, seq, ops, 
+                                                      pend >>
                       ELSE /\ IF bs[self] > start[idx[self]]
                                  THEN /\ pc' = [pc EXCEPT ![self] = "w_try"]
                                       /\ UNCHANGED << seq, ops, pend >>
-                                 ELSE /\ IF N = 1
-                                            THEN /\ pc' = [pc EXCEPT ![self] = "w_add"]
-                                                 /\ UNCHANGED << seq, ops, 
-                                                                 pend >>
-                                            ELSE /\ seq' = seq + 1
-                                                 /\ ops' = (ops \cup {[pend[self] EXCEPT !.ret = seq' + 1, !.retNow = now, !.val = 0]})
-                                                 /\ pend' = [pend EXCEPT ![self] = [kind |-> "none"]]
-                                                 /\ pc' = [pc EXCEPT ![self] = "Done"]
-                /\ UNCHANGED << start, cnt, lock, now, ts, bs, idx, rts, rbs, 
-                                ridx, si, incl, sum >>
+                                 ELSE /\ seq' = seq + 1
+                                      /\ ops' = (ops \cup {[pend[self] EXCEPT !.ret = seq' + 1, !.retNow = now, !.val = 0]})
+                                      /\ pend' = [pend EXCEPT ![self] = [kind |-> "none"]]
+                                      /\ pc' = [pc EXCEPT ![self] = "Done"]
+                           /\ UNCHANGED << cnt, mn, mx >>
+                /\ UNCHANGED << start, lock, now, ts, bs, idx, rts, rbs, ridx, 
+                                si, incl, sum >>
 
 w_try(self) == /\ pc[self] = "w_try"
                /\ sched' = Append(sched, self)
@@ -240,16 +318,21 @@ w_try(self) == /\ pc[self] = "w_try"
                                      /\ lock' = lock
                                 ELSE /\ lock' = self
                                      /\ pc' = [pc EXCEPT ![self] = "w_r1"]
-               /\ UNCHANGED << start, cnt, now, seq, ops, pend, ts, bs, idx, 
-                               rts, rbs, ridx, si, incl, sum >>
+               /\ UNCHANGED << start, cnt, mn, mx, now, seq, ops, pend, ts, bs, 
+                               idx, rts, rbs, ridx, si, incl, sum >>
 
 w_r1(self) == /\ pc[self] = "w_r1"
               /\ sched' = Append(sched, self)
               /\ IF ResetFirst
-                    THEN /\ cnt' = [cnt EXCEPT ![idx[self]] = 0]
+                    THEN /\ IF ~SkipReset(cnt[idx[self]])
+                               THEN /\ cnt' = [cnt EXCEPT ![idx[self]] = Zero]
+                                    /\ mn' = [mn EXCEPT ![idx[self]] = MaxRt]
+                                    /\ mx' = [mx EXCEPT ![idx[self]] = 0]
+                               ELSE /\ TRUE
+                                    /\ UNCHANGED << cnt, mn, mx >>
                          /\ start' = start
                     ELSE /\ start' = [start EXCEPT ![idx[self]] = bs[self]]
-                         /\ cnt' = cnt
+                         /\ UNCHANGED << cnt, mn, mx >>
               /\ pend' = [p \in DOMAIN pend |->
                             IF p # self /\ ((pend[p].kind = "add" /\ Idx(pend[p].ts) = idx[self]) \/ pend[p].kind = "read")
                             THEN [pend[p] EXCEPT !.over = TRUE] ELSE pend[p]]
@@ -261,8 +344,13 @@ w_r2(self) == /\ pc[self] = "w_r2"
               /\ sched' = Append(sched, self)
               /\ IF ResetFirst
                     THEN /\ start' = [start EXCEPT ![idx[self]] = bs[self]]
-                         /\ cnt' = cnt
-                    ELSE /\ cnt' = [cnt EXCEPT ![idx[self]] = 0]
+                         /\ UNCHANGED << cnt, mn, mx >>
+                    ELSE /\ IF ~SkipReset(cnt[idx[self]])
+                               THEN /\ cnt' = [cnt EXCEPT ![idx[self]] = Zero]
+                                    /\ mn' = [mn EXCEPT ![idx[self]] = MaxRt]
+                                    /\ mx' = [mx EXCEPT ![idx[self]] = 0]
+                               ELSE /\ TRUE
+                                    /\ UNCHANGED << cnt, mn, mx >>
                          /\ start' = start
               /\ pend' = [p \in DOMAIN pend |->
                             IF p # self /\ ((pend[p].kind = "add" /\ Idx(pend[p].ts) = idx[self]) \/ pend[p].kind = "read")
@@ -274,12 +362,35 @@ w_r2(self) == /\ pc[self] = "w_r2"
 w_unlock(self) == /\ pc[self] = "w_unlock"
                   /\ lock' = 0
                   /\ sched' = Append(sched, self)
-                  /\ pc' = [pc EXCEPT ![self] = "w_add"]
-                  /\ UNCHANGED << start, cnt, now, seq, ops, pend, ts, bs, idx, 
-                                  rts, rbs, ridx, si, incl, sum >>
+                  /\ IF WKind[self] = "conc"
+                        THEN /\ IF WKind[self] = "conc"
+                                   THEN /\ mx' = [mx EXCEPT ![idx[self]] = Max2(mx[idx[self]], Amt[self])]
+                                        /\ UNCHANGED << cnt, mn >>
+                                   ELSE /\ cnt' = [cnt EXCEPT ![idx[self]][WKind[self]] = cnt[idx[self]][WKind[self]] + Amt[self]]
+                                        /\ IF WKind[self] = "rt"
+                                              THEN /\ mn' = [mn EXCEPT ![idx[self]] = Min2(mn[idx[self]], Amt[self])]
+                                              ELSE /\ TRUE
+                                                   /\ mn' = mn
+                                        /\ mx' = mx
+                             /\ seq' = seq + 1
+                             /\ ops' = (ops \cup {[pend[self] EXCEPT !.ret = seq' + 1, !.retNow = now, !.val = 0]})
+                             /\ pend' = [pend EXCEPT ![self] = [kind |-> "none"]]
+                             /\ pc' = [pc EXCEPT ![self] = "Done"]
+                        ELSE /\ pc' = [pc EXCEPT ![self] = "w_add"]
+                             /\ UNCHANGED << cnt, mn, mx, seq, ops, pend >>
+                  /\ UNCHANGED << start, now, ts, bs, idx, rts, rbs, ridx, si, 
+                                  incl, sum >>
 
 w_add(self) == /\ pc[self] = "w_add"
-               /\ cnt' = [cnt EXCEPT ![idx[self]] = cnt[idx[self]] + Amt[self]]
+               /\ IF WKind[self] = "conc"
+                     THEN /\ mx' = [mx EXCEPT ![idx[self]] = Max2(mx[idx[self]], Amt[self])]
+                          /\ UNCHANGED << cnt, mn >>
+                     ELSE /\ cnt' = [cnt EXCEPT ![idx[self]][WKind[self]] = cnt[idx[self]][WKind[self]] + Amt[self]]
+                          /\ IF WKind[self] = "rt"
+                                THEN /\ mn' = [mn EXCEPT ![idx[self]] = Min2(mn[idx[self]], Amt[self])]
+                                ELSE /\ TRUE
+                                     /\ mn' = mn
+                          /\ mx' = mx
                /\ sched' = Append(sched, self)
                /\ seq' = seq + 1
                /\ ops' = (ops \cup {[pend[self] EXCEPT !.ret = seq' + 1, !.retNow = now, !.val = 0]})
@@ -296,19 +407,24 @@ r_inv(self) == /\ pc[self] = "r_inv"
                /\ rbs' = [rbs EXCEPT ![self] = Align(now, BL)]
                /\ ridx' = [ridx EXCEPT ![self] = Idx(now)]
                /\ seq' = seq + 1
-               /\ pend' = [pend EXCEPT ![self] = [kind |-> "read", ts |-> now, n |-> 0, inv |-> seq' + 1, ret |-> 0, retNow |-> 0, val |-> 0, over |-> FALSE]]
+               /\ pend' = [pend EXCEPT ![self] = [kind |-> "read", ev |-> RKind[self], ts |-> now, n |-> 0, inv |-> seq' + 1, ret |-> 0, retNow |-> 0, val |-> 0, over |-> FALSE]]
                /\ sched' = Append(sched, self)
                /\ pc' = [pc EXCEPT ![self] = "r_load"]
-               /\ UNCHANGED << start, cnt, lock, now, ops, ts, bs, idx, si, 
-                               incl, sum >>
+               /\ UNCHANGED << start, cnt, mn, mx, lock, now, ops, ts, bs, idx, 
+                               si, incl, sum >>
 
 r_load(self) == /\ pc[self] = "r_load"
                 /\ sched' = Append(sched, self)
                 /\ IF start[ridx[self]] = rbs[self] \/ (rbs[self] < start[ridx[self]])
-                      THEN /\ pc' = [pc EXCEPT ![self] = "r_scan"]
+                      THEN /\ IF RKind[self] \in ExtKinds
+                                 THEN /\ rts' = [rts EXCEPT ![self] = now]
+                                 ELSE /\ TRUE
+                                      /\ rts' = rts
+                           /\ pc' = [pc EXCEPT ![self] = "r_scan"]
                       ELSE /\ pc' = [pc EXCEPT ![self] = "r_try"]
-                /\ UNCHANGED << start, cnt, lock, now, seq, ops, pend, ts, bs, 
-                                idx, rts, rbs, ridx, si, incl, sum >>
+                           /\ rts' = rts
+                /\ UNCHANGED << start, cnt, mn, mx, lock, now, seq, ops, pend, 
+                                ts, bs, idx, rbs, ridx, si, incl, sum >>
 
 r_try(self) == /\ pc[self] = "r_try"
                /\ sched' = Append(sched, self)
@@ -320,16 +436,21 @@ r_try(self) == /\ pc[self] = "r_try"
                                      /\ lock' = lock
                                 ELSE /\ lock' = self
                                      /\ pc' = [pc EXCEPT ![self] = "r_r1"]
-               /\ UNCHANGED << start, cnt, now, seq, ops, pend, ts, bs, idx, 
-                               rts, rbs, ridx, si, incl, sum >>
+               /\ UNCHANGED << start, cnt, mn, mx, now, seq, ops, pend, ts, bs, 
+                               idx, rts, rbs, ridx, si, incl, sum >>
 
 r_r1(self) == /\ pc[self] = "r_r1"
               /\ sched' = Append(sched, self)
               /\ IF ResetFirst
-                    THEN /\ cnt' = [cnt EXCEPT ![ridx[self]] = 0]
+                    THEN /\ IF ~SkipReset(cnt[ridx[self]])
+                               THEN /\ cnt' = [cnt EXCEPT ![ridx[self]] = Zero]
+                                    /\ mn' = [mn EXCEPT ![ridx[self]] = MaxRt]
+                                    /\ mx' = [mx EXCEPT ![ridx[self]] = 0]
+                               ELSE /\ TRUE
+                                    /\ UNCHANGED << cnt, mn, mx >>
                          /\ start' = start
                     ELSE /\ start' = [start EXCEPT ![ridx[self]] = rbs[self]]
-                         /\ cnt' = cnt
+                         /\ UNCHANGED << cnt, mn, mx >>
               /\ pend' = [p \in DOMAIN pend |->
                             IF p # self /\ ((pend[p].kind = "add" /\ Idx(pend[p].ts) = ridx[self]) \/ pend[p].kind = "read")
                             THEN [pend[p] EXCEPT !.over = TRUE] ELSE pend[p]]
@@ -341,8 +462,13 @@ r_r2(self) == /\ pc[self] = "r_r2"
               /\ sched' = Append(sched, self)
               /\ IF ResetFirst
                     THEN /\ start' = [start EXCEPT ![ridx[self]] = rbs[self]]
-                         /\ cnt' = cnt
-                    ELSE /\ cnt' = [cnt EXCEPT ![ridx[self]] = 0]
+                         /\ UNCHANGED << cnt, mn, mx >>
+                    ELSE /\ IF ~SkipReset(cnt[ridx[self]])
+                               THEN /\ cnt' = [cnt EXCEPT ![ridx[self]] = Zero]
+                                    /\ mn' = [mn EXCEPT ![ridx[self]] = MaxRt]
+                                    /\ mx' = [mx EXCEPT ![ridx[self]] = 0]
+                               ELSE /\ TRUE
+                                    /\ UNCHANGED << cnt, mn, mx >>
                          /\ start' = start
               /\ pend' = [p \in DOMAIN pend |->
                             IF p # self /\ ((pend[p].kind = "add" /\ Idx(pend[p].ts) = ridx[self]) \/ pend[p].kind = "read")
@@ -354,9 +480,13 @@ r_r2(self) == /\ pc[self] = "r_r2"
 r_unlock(self) == /\ pc[self] = "r_unlock"
                   /\ lock' = 0
                   /\ sched' = Append(sched, self)
+                  /\ IF RKind[self] \in ExtKinds
+                        THEN /\ rts' = [rts EXCEPT ![self] = now]
+                        ELSE /\ TRUE
+                             /\ rts' = rts
                   /\ pc' = [pc EXCEPT ![self] = "r_scan"]
-                  /\ UNCHANGED << start, cnt, now, seq, ops, pend, ts, bs, idx, 
-                                  rts, rbs, ridx, si, incl, sum >>
+                  /\ UNCHANGED << start, cnt, mn, mx, now, seq, ops, pend, ts, 
+                                  bs, idx, rbs, ridx, si, incl, sum >>
 
 r_scan(self) == /\ pc[self] = "r_scan"
                 /\ sched' = Append(sched, self)
@@ -368,20 +498,26 @@ r_scan(self) == /\ pc[self] = "r_scan"
                 /\ IF si'[self] < N
                       THEN /\ pc' = [pc EXCEPT ![self] = "r_scan"]
                            /\ UNCHANGED << seq, ops, pend >>
-                      ELSE /\ IF incl'[self] = {}
+                      ELSE /\ IF RKind[self] \in ExtKinds
                                  THEN /\ seq' = seq + 1
-                                      /\ ops' = (ops \cup {[pend[self] EXCEPT !.ret = seq' + 1, !.retNow = now, !.val = 0]})
+                                      /\ ops' = (ops \cup {[pend[self] EXCEPT !.ret = seq' + 1, !.retNow = now, !.val = (ExtRead(RKind[self], incl'[self]))]})
                                       /\ pend' = [pend EXCEPT ![self] = [kind |-> "none"]]
                                       /\ pc' = [pc EXCEPT ![self] = "Done"]
-                                 ELSE /\ pc' = [pc EXCEPT ![self] = "r_get"]
-                                      /\ UNCHANGED << seq, ops, pend >>
-                /\ UNCHANGED << start, cnt, lock, now, ts, bs, idx, rts, rbs, 
-                                ridx, sum >>
+                                 ELSE /\ IF incl'[self] = {}
+                                            THEN /\ seq' = seq + 1
+                                                 /\ ops' = (ops \cup {[pend[self] EXCEPT !.ret = seq' + 1, !.retNow = now, !.val = 0]})
+                                                 /\ pend' = [pend EXCEPT ![self] = [kind |-> "none"]]
+                                                 /\ pc' = [pc EXCEPT ![self] = "Done"]
+                                            ELSE /\ pc' = [pc EXCEPT ![self] = "r_get"]
+                                                 /\ UNCHANGED << seq, ops, 
+                                                                 pend >>
+                /\ UNCHANGED << start, cnt, mn, mx, lock, now, ts, bs, idx, 
+                                rts, rbs, ridx, sum >>
 
 r_get(self) == /\ pc[self] = "r_get"
                /\ sched' = Append(sched, self)
                /\ LET j == CHOOSE x \in incl[self] : \A y \in incl[self] : x <= y IN
-                    /\ sum' = [sum EXCEPT ![self] = sum[self] + cnt[j]]
+                    /\ sum' = [sum EXCEPT ![self] = sum[self] + cnt[j][RKind[self]]]
                     /\ incl' = [incl EXCEPT ![self] = incl[self] \ {j}]
                /\ IF incl'[self] # {}
                      THEN /\ pc' = [pc EXCEPT ![self] = "r_get"]
@@ -390,8 +526,8 @@ r_get(self) == /\ pc[self] = "r_get"
                           /\ ops' = (ops \cup {[pend[self] EXCEPT !.ret = seq' + 1, !.retNow = now, !.val = sum'[self]]})
                           /\ pend' = [pend EXCEPT ![self] = [kind |-> "none"]]
                           /\ pc' = [pc EXCEPT ![self] = "Done"]
-               /\ UNCHANGED << start, cnt, lock, now, ts, bs, idx, rts, rbs, 
-                               ridx, si >>
+               /\ UNCHANGED << start, cnt, mn, mx, lock, now, ts, bs, idx, rts, 
+                               rbs, ridx, si >>
 
 r(self) == r_inv(self) \/ r_load(self) \/ r_try(self) \/ r_r1(self)
               \/ r_r2(self) \/ r_unlock(self) \/ r_scan(self)
@@ -405,8 +541,8 @@ tick == /\ pc[0] = "tick"
                    /\ pc' = [pc EXCEPT ![0] = "tick"]
               ELSE /\ pc' = [pc EXCEPT ![0] = "Done"]
                    /\ UNCHANGED << now, sched >>
-        /\ UNCHANGED << start, cnt, lock, seq, ops, pend, ts, bs, idx, rts, 
-                        rbs, ridx, si, incl, sum >>
+        /\ UNCHANGED << start, cnt, mn, mx, lock, seq, ops, pend, ts, bs, idx, 
+                        rts, rbs, ridx, si, incl, sum >>
 
 clock == tick
 
